@@ -727,8 +727,11 @@ func c18GenDB(r *lib.Rng, tier string) lib.Case {
 			ops = append(ops, "scan "+lib.Hex(lib.Pick(r, [][]byte{nil, {0x61}, {0xff}})))
 		case x < 78:
 			ops = append(ops, "bg f")
-		case x < 84:
+		case x < 82:
 			ops = append(ops, "bg cf")
+		case x < 88:
+			// bring a flush and a compaction to their commit points, then let the two commits race
+			ops = append(ops, "bg f", "bg c", "bg race")
 		default:
 			ops = append(ops, "bg c")
 		}
@@ -839,6 +842,8 @@ func c18Fixed() []lib.Case {
 	// it (one TableWriter for both tasks): table numbers must be handed out atomically
 	v40 := strings.Repeat("41", 40)
 	w40 := strings.Repeat("42", 40)
+	race := []string{"put 6130 " + v40, "bg f", "bg f", "put 6130 " + w40, "bg c", "bg f", "bg race", "get 6130", "scan -",
+		"put 6230 " + v40, "bg f", "bg c", "bg race", "get 6130", "get 6230", "scan -", "bg c", "bg c", "scan -", "chk"}
 	cf := []string{"put 6130 " + v40, "bg f", "bg f", "put 6130 " + w40, "bg cf", "bg f", "bg c", "get 6130", "scan -",
 		"put 6230 " + v40, "bg f", "bg f", "bg c", "bg c", "get 6130", "get 6230", "scan -", "chk"}
 	// 13 level-0 tables of two checkpoint sources whose sequence numbers (hence ages) tie pairwise
@@ -852,6 +857,7 @@ func c18Fixed() []lib.Case {
 		"compact", "apply", "valid", "get 1061", "get 2062", "scan -", "safe", "pick", "layout")
 	return []lib.Case{
 		{Header: "M C18 mode=db mem=40 target=1048576 l0=1 amp=100000 smallest=1099511627776", Ops: cf, Tags: []string{"flush-inside-compaction-write"}},
+		{Header: "M C18 mode=db mem=40 target=1048576 l0=1 amp=100000 smallest=1099511627776", Ops: race, Tags: []string{"commit-race"}},
 		{Header: "M C18 mode=ckpt levels=6 nsrc=2 order=1.0 mem=40 sl0=100 samp=100000 ssmall=1099511627776 l0=1 amp=150 smallest=1099511627776 target=1048576", Ops: tie, Tags: []string{"tied-ages-13-l0"}},
 		{Header: "M C18 mode=direct levels=4 l0=1 amp=250 smallest=1099511627776 target=1048576", Ops: d22, Tags: []string{"regress-D22"}},
 		{Header: "M C18 mode=direct levels=4 l0=1 amp=250 smallest=1099511627776 target=1048576", Ops: d22f, Tags: []string{"regress-D22"}},
@@ -863,7 +869,7 @@ func propC18() *lib.Prop {
 	return &lib.Prop{
 		ID:   "C18",
 		Corr: "Model/Compaction.lean compact/applyCS/LayoutValid/SafeCS ↔ real sst.Compactor.Compact, LevelList.NewWithChangeSet, Get, ScanPrefixWithTombstones",
-		Rule: "real Compactor.Compact steps on level lists of real tables (overlapping keys across levels, multi-table levels, flush arrivals between computing and applying a change set); after every step the real layout is judged by LayoutValid, every pool key's Get and three scans are compared with the never-compacted reference, the real change set is tested for membership in SafeCS/safeCS and compared with the model's compact under the observed oracle answers; non-trivial = at least one change set was applied",
+		Rule: "real Compactor.Compact steps on level lists of real tables (overlapping keys across levels, multi-table levels, flush arrivals between computing and applying a change set); after every step the real layout is judged by LayoutValid, every pool key's Get and six scans are compared with the never-compacted reference, the real change set is tested for membership in SafeCS/safeCS and compared with the model's compact under the observed oracle answers; non-trivial = at least one change set was applied",
 		FeedImpl: true,
 		NumCases: func(tier string) int {
 			if tier == "thorough" {
@@ -1144,6 +1150,131 @@ func runC18DB(c lib.Case) []string {
 					flushedSinceBegin = true
 					out = append(out, fmt.Sprintf("flushcommit %d", n))
 				}
+			case "race":
+				// the flush commit and the compaction commit are released together and really race for db.mu: afterwards the
+				// level list must hold both effects (no lost update)
+				if compactQ == 0 || flushQ == 0 {
+					out = append(out, "skip")
+					continue
+				}
+				tc := s.waitParked("compact")
+				tf := s.waitParked("flush")
+				if tc == nil || tf == nil {
+					out = append(out, "timeout")
+					continue
+				}
+				if tc.label != "dkv.compact.commit" || tf.label != "dkv.flush.commit" {
+					out = append(out, "skip")
+					continue
+				}
+				if compactQ >= 4 {
+					// the finishing flush task enqueues a compaction task: a full queue would block it
+					out = append(out, "queue-full")
+					continue
+				}
+				n := tf.payload[1].(int)
+				cs := tc.payload[1].(*sst.ChangeSet)
+				lvls, added, removed := cs.VerifChangeSet()
+				nLevels := len(db.VerifLevels().VerifLayout())
+				lvl := -2
+				for _, l := range lvls {
+					if l < 0 {
+						l = nLevels + l
+					}
+					if lvl == -2 {
+						lvl = l
+					} else if lvl != l {
+						lvl = -3
+					}
+				}
+				var rm []string
+				for _, r := range removed {
+					if id, ok := s.ids[r]; ok {
+						rm = append(rm, strconv.Itoa(id))
+					} else {
+						rm = append(rm, "999999")
+					}
+				}
+				before := map[*sst.Table]bool{}
+				for _, ti := range db.VerifLevels().VerifLayout()[0] {
+					before[ti.Table] = true
+				}
+				// release both at once
+				s.mu.Lock()
+				pf, pc := s.parked["flush"], s.parked["compact"]
+				delete(s.parked, "flush")
+				delete(s.parked, "compact")
+				s.mu.Unlock()
+				var wg sync.WaitGroup
+				wg.Add(2)
+				start := make(chan struct{})
+				go func() { defer wg.Done(); <-start; close(pf.resume) }()
+				go func() { defer wg.Done(); <-start; close(pc.resume) }()
+				close(start)
+				wg.Wait()
+				gotF, gotC := false, false
+				deadline := time.After(schedGrace)
+				for !(gotF && gotC) {
+					select {
+					case e := <-s.events:
+						if e == "dkv.flush.done" {
+							gotF = true
+						}
+						if e == "dkv.compact.done" {
+							gotC = true
+						}
+					case <-deadline:
+						gotF, gotC = true, true
+						lvl = -9
+					}
+				}
+				if lvl == -9 {
+					out = append(out, "timeout")
+					continue
+				}
+				flushQ--
+				compactQ++
+				// ids as the model hands them out: the flushed tables first, then the compaction's output
+				base := s.nextID
+				for _, ti := range db.VerifLevels().VerifLayout()[0] {
+					if _, known := s.ids[ti.Table]; !known && !before[ti.Table] {
+						s.ids[ti.Table] = s.nextID
+						s.nextID++
+					}
+				}
+				s.nextID = base + n
+				var add []string
+				for _, a := range added {
+					add = append(add, dumpTable(a))
+					s.ids[a] = s.nextID
+					s.nextID++
+				}
+				rmS, addS := "-", "none"
+				if len(rm) > 0 {
+					rmS = strings.Join(rm, ",")
+				}
+				if len(add) > 0 {
+					addS = strings.Join(add, "|")
+				}
+				var idl []string
+				for _, l := range db.VerifLevels().VerifLayout() {
+					if len(l) == 0 {
+						idl = append(idl, "-")
+						continue
+					}
+					var xs []string
+					for _, ti := range l {
+						if id, known := s.ids[ti.Table]; known {
+							xs = append(xs, strconv.Itoa(id))
+						} else {
+							xs = append(xs, "999999")
+						}
+					}
+					idl = append(idl, strings.Join(xs, ","))
+				}
+				flushedSinceBegin = false
+				c18Bump("db:flush-and-compaction-commit-raced")
+				out = append(out, fmt.Sprintf("race flushcommit %d compact L%d rm=%s add=%s cur=%d ids=%s", n, lvl, rmS, addS, comp.VerifMinorLevel(), strings.Join(idl, "/")))
 			case "cf":
 				// a flush writes its tables while the compaction task is between choosing the file name of its first
 				// output table and saving it (TableWriter is shared by both tasks)
